@@ -75,6 +75,14 @@ macro_rules! with_limbs {
                 const $N: usize = 4;
                 $body
             }
+            5 => {
+                const $N: usize = 5;
+                $body
+            }
+            7 => {
+                const $N: usize = 7;
+                $body
+            }
             6 => {
                 const $N: usize = 6;
                 $body
